@@ -114,11 +114,11 @@ theorem staticcall_observably_nothing (env : Env) (ctx : Ctx) (addr : Addr) (val
     let w' := (enterCall env ctx .static addr value gas w tr (exec env callee)).w
     w'.balOf a = w.balOf a ∧ w'.nonceOf a = w.nonceOf a ∧ w'.codeOf a = w.codeOf a
     ∧ (∀ k, w'.storOf a k = w.storOf a k) ∧ w'.hasSuicided a = w.hasSuicided a ∧ w'.isEmpty a = w.isEmpty a
-    ∧ w'.logs = w.logs ∧ w'.refund = w.refund := by
+    ∧ w'.logs = w.logs ∧ w'.logSize = w.logSize ∧ w'.refund = w.refund := by
   intro w'
   have h := staticcall_changes_nothing env ctx addr value gas w tr callee
   obtain ⟨a1, a2, a3, a4, a5, a6⟩ := h.getters hg a
-  exact ⟨a1, a2, a3, a4, a5, a6, h.logs, h.refund⟩
+  exact ⟨a1, a2, a3, a4, a5, a6, h.logs, h.logSize, h.refund⟩
 
 /-! ## 3. Value is conserved -/
 
